@@ -31,6 +31,7 @@ type MapObj struct {
 	Vals  map[string]*Term // component -> Array K τ
 	KeyW  int
 	ValT  types.Type
+	Own   bool // every value ever stored is an object allocated by this call (engine-maintained: the map is local)
 }
 
 type BufObj struct {
@@ -194,6 +195,7 @@ type Frame struct {
 	defers  []deferred
 	depth   int
 	loopPre map[string]Val // snapshots at loop entry: pre_<name>
+	parent  *Frame         // the caller's frame (dynamic chain, for by-name binding)
 }
 
 type deferred struct {
@@ -205,7 +207,7 @@ type deferred struct {
 func (f *Frame) clone() *Frame {
 	n := &Frame{fn: f.fn, regs: make(map[ssa.Value]Val, len(f.regs)), prev: f.prev, named: make(map[string]int, len(f.named)),
 		entry: f.entry, iter: make(map[*ssa.BasicBlock]int, len(f.iter)), inLoop: make(map[*ssa.BasicBlock]bool, len(f.inLoop)),
-		defers: append([]deferred{}, f.defers...), depth: f.depth, loopPre: make(map[string]Val, len(f.loopPre))}
+		defers: append([]deferred{}, f.defers...), depth: f.depth, loopPre: make(map[string]Val, len(f.loopPre)), parent: f.parent}
 	for k, v := range f.regs {
 		n.regs[k] = v
 	}
@@ -243,6 +245,9 @@ func fresh(prefix string) string {
 }
 
 var alloc0 = Sym("alloc0", 64)
+
+// ifaceTags: interface type name -> the concrete type its values are assumed to have in this unit (-ifacetag).
+var ifaceTags = map[string]types.Type{}
 
 func (s *State) allocRef() *Term {
 	s.nalloc++
@@ -361,6 +366,10 @@ func (s *State) freshVal(t types.Type, hint string) Val {
 	case *types.Interface:
 		if isError(t) {
 			return ErrV{NonNil: Sym(fresh(hint+"_nonnil"), 0), ID: Sym(fresh(hint+"_id"), 64)}
+		}
+		if ct, ok := ifaceTags[typeName(t)]; ok {
+			// values of this interface type are assumed to have this dynamic type (stated in the unit's assumptions)
+			return IfaceV{Tag: ct, V: s.freshVal(ct, hint)}
 		}
 		return IfaceSym{ID: Sym(fresh(hint+"_iface"), 64), T: t}
 	}
